@@ -8,7 +8,8 @@ PROP = 'C08'
 LEVEL = 'other'
 EXPLANATION = ('Proved (deductive): readvalues (while-loop invariant over a ghost file = sequence of lines + cursor: value k is the k-th '
                '10-character field, exactly ceil(nb/n) lines are consumed - including counts that are not multiples of the values per line), '
-               'parse_adas2x_rate (section order, header columns, unit conversions cm^-3 -> m^-3 and the normalisation factor).  Parse-tree '
+               'parse_adas2x_rate (section order, header columns, unit conversions cm^-3 -> m^-3 and the normalisation factor), ADF12 _parse_block (13 '
+               'fixed-length sections in the published order, each truncated to its own size entry).  Parse-tree '
                'obligations: charge-offset / 10** / unit conversions of the ADF11 notation converter, reshape((n_te, n_ne)) + swapaxes(0, 1), '
                'element-header check, absent-block error, ADF15 reshape, ADF12/21/22 key nesting.  The regular-expression layers of '
                'parse_adf11 / parse_adf15 cannot be brought into the verifier (bounded stand-in: independent ADF11 / ADF21 writers, random '
